@@ -299,7 +299,7 @@ fn exec<F: Flavour>(w: &mut World<F>, extras: &mut Vec<F::Node>, op: &TOp) -> Ob
             Obs::Text(format!("{first}; {last}"))
         }
         TOp::DeHandWritten { wire, variant } => {
-            use crate::keys::kin;
+            use crate::keys::kin_raw as kin;
             type Doc = (Vec<(usize, (u32, u64))>, Vec<(usize, usize, u64)>);
             let (a, b, c) = (kin(0), kin(1), kin(2));
             let doc: Doc = match variant % 4 {
